@@ -1312,3 +1312,7 @@ mod tests {
         assert!(book.ask_side.best_order_idx() == loaded_book.ask_side.best_order_idx());
     }
 }
+
+#[cfg(any(kani, verif_replay))]
+#[path = "/verif/harness/book_proofs.rs"]
+pub(crate) mod verif_proofs;
